@@ -261,3 +261,51 @@ def shared_command_set_problems(repo: Repo, modules=('sopclass',)) -> Tuple[List
                                     'the' if org[1] == 'alias' else 'a shallow copy (Dataset.copy() / copy.copy()) of the',
                                     'of ' + org[0], e.line, e.callee.split('.', 1)[1], org[0]))
     return sorted(set(probs)), n
+
+
+# --------------------------------------------------------------------------- what the application hands over stays as it is
+
+_MUTATORS = ('update', 'append', 'extend', 'insert', 'pop', 'popitem', 'remove', 'clear', 'setdefault', 'sort', 'reverse', 'add', 'discard')
+
+
+def handler_result_mutations(repo: Repo, modules=('sopclass',)) -> Tuple[List[str], int]:
+    """What an application handler (``on_receive_*`` / ``on_commitment_*``) returns belongs to the application: a dictionary of a
+    known peer, a data set, a list are typically shared between requests and associations.  A service function that stores into
+    such an object (``result[k] = v``, ``result.attr = v``) or calls a mutating method on it changes it for every other
+    association that gets the same object.  Decided for the locals that are bound to (a component of) a handler result and to
+    nothing else.  -> (problems, number of such locals examined)"""
+    probs: List[str] = []
+    n = 0
+    for fi in repo.all_functions():
+        if fi.module.name not in modules:
+            continue
+        binds: Dict[str, List[Optional[ast.expr]]] = {}
+        for x in ast.walk(fi.node):
+            if isinstance(x, ast.Assign):
+                for t in x.targets:
+                    names = [t] if isinstance(t, ast.Name) else [e for e in ast.walk(t) if isinstance(e, ast.Name)] if isinstance(t, (ast.Tuple, ast.List)) else []
+                    for nm in names:
+                        binds.setdefault(nm.id, []).append(x.value)
+            elif isinstance(x, (ast.For, ast.With, ast.AugAssign, ast.NamedExpr)):
+                for e in ast.walk(x.target if hasattr(x, 'target') else x):
+                    if isinstance(e, ast.Name) and isinstance(e.ctx, ast.Store):
+                        binds.setdefault(e.id, []).append(None)
+
+        def from_handler(v) -> bool:
+            return isinstance(v, ast.Call) and ast.unparse(v.func).rsplit('.', 1)[-1].startswith(('on_receive_', 'on_commitment_'))
+        owned = {nm for nm, vals in binds.items() if len(vals) == 1 and vals[0] is not None and from_handler(vals[0]) and nm not in fi.params}
+        n += len(owned)
+        for x in ast.walk(fi.node):
+            hit = None
+            if isinstance(x, (ast.Subscript, ast.Attribute)) and isinstance(x.ctx, (ast.Store, ast.Del)) and isinstance(x.value, ast.Name) \
+                    and x.value.id in owned:
+                hit = (x.value.id, 'stores into %s' % ast.unparse(x), x.lineno)
+            elif isinstance(x, ast.Call) and isinstance(x.func, ast.Attribute) and x.func.attr in _MUTATORS and isinstance(x.func.value, ast.Name) \
+                    and x.func.value.id in owned:
+                hit = (x.func.value.id, 'calls %s()' % ast.unparse(x.func), x.lineno)
+            if hit:
+                probs.append('%s %s (line %d): %s is what the application\'s %s returned -- an object the application owns and typically '
+                             'shares between requests (a table of known peers); changing it in place changes it for the associations '
+                             'served at the same time. Work on a copy (dict(x, key=..))'
+                             % (fi.qualname, hit[1], hit[2], hit[0], ast.unparse(binds[hit[0]][0].func).rsplit('.', 1)[-1]))
+    return sorted(set(probs)), n
